@@ -1013,6 +1013,10 @@ def raise_types(rep, idx):
                             isinstance(s.targets[0], ast.Name) and s.targets[0].id == n.exc.id]
                     ctors = {ast.unparse(s.value.func) for s in defs if isinstance(s.value, ast.Call)}
                     handlers = [h for h in ast.walk(f.node) if isinstance(h, ast.ExceptHandler) and h.name == n.exc.id]
+                    others = [s for s in defs if not isinstance(s.value, ast.Call) and not (isinstance(s.value, ast.Constant) and s.value.value is None)]
+                    if ctors and not others and all(c_ in ("ValueError", "TypeError") for c_ in ctors):
+                        rep.ok("C19.5", f.site, f"raise {n.exc.id}", f"built as {sorted(ctors)}: descriptive refusals", nontrivial=False)
+                        continue
                     if len(ctors) == 1 and len(ctors) == len({ast.unparse(s.value.func) if isinstance(s.value, ast.Call) else "?" for s in defs}):
                         e = ast.parse(next(iter(ctors)), mode="eval").body
                     elif handlers and not defs:
@@ -1030,6 +1034,13 @@ def raise_types(rep, idx):
                             exc = types.pop()
                 key = (f.site, exc)
                 what = f"raise {exc}"
+                # the table is keyed by function, but a helper may move within its file: then file + exception type + the
+                # number of such raises in the file identify the entry
+                if key not in EXC_TABLE and exc not in ("ValueError", "TypeError"):
+                    same_file = [k for k in EXC_TABLE if k[0].split("::")[0] == f.site.split("::")[0] and k[1] == exc and k not in used]
+                    gone = [k for k in same_file if not any(g.site == k[0] for g in idx.all_functions())]
+                    if gone:
+                        key = gone[0]
                 if exc in ("ValueError", "TypeError"):
                     rep.ok("C19.5", f.site, what, "descriptive refusal", nontrivial=False)
                 elif key in EXC_TABLE:
@@ -1106,6 +1117,27 @@ def _is_bus(e):
 
 
 # ---- C19.6 ----------------------------------------------------------------------------------------------
+def _list_of_strings(f, name):
+    """name = [] (or a list of string literals) and every name.append(x) has x an f-string, a string literal or str(...)."""
+    def is_str(e):
+        return isinstance(e, ast.JoinedStr) or (isinstance(e, ast.Constant) and isinstance(e.value, str)) or \
+            (isinstance(e, ast.Call) and isinstance(e.func, ast.Name) and e.func.id in ("str", "repr", "format")) or \
+            (isinstance(e, ast.BinOp) and isinstance(e.op, (ast.Add, ast.Mod)) and (is_str(e.left) or is_str(e.right)))
+    inits = [n for n in ast.walk(f.node) if isinstance(n, ast.Assign) and len(n.targets) == 1 and
+             isinstance(n.targets[0], ast.Name) and n.targets[0].id == name]
+    if len(inits) != 1 or not isinstance(inits[0].value, ast.List) or not all(is_str(e) for e in inits[0].value.elts):
+        return False
+    for n in ast.walk(f.node):
+        if isinstance(n, ast.Call) and isinstance(n.func, ast.Attribute) and isinstance(n.func.value, ast.Name) and n.func.value.id == name:
+            if n.func.attr == "append" and len(n.args) == 1 and is_str(n.args[0]):
+                continue
+            if n.func.attr in ("append", "extend", "insert", "__setitem__"):
+                return False
+        if isinstance(n, (ast.AugAssign,)) and isinstance(n.target, ast.Name) and n.target.id == name:
+            return False
+    return True
+
+
 def joins(rep, idx):
     for f in idx.all_functions():
         # names bound to path-typed values in this function
@@ -1140,6 +1172,8 @@ def joins(rep, idx):
                                 "so str.join raises TypeError instead of producing the name; map the parts through str()")
                     elif (f.site, a.id) in JOIN_TABLE:
                         rep.ok("C19.6", f.site, what, "table: " + JOIN_TABLE[(f.site, a.id)], nontrivial=False)
+                    elif _list_of_strings(f, a.id):
+                        rep.ok("C19.6", f.site, what, f"`{a.id}` is a local list that only ever receives f-strings / str() values", nontrivial=False)
                     else:
                         rep.unk("C19.6", f.site, what, f"`{a.id}` is not known to hold strings only")
                 else:
